@@ -60,7 +60,7 @@ def generate(tier):
                                 hp = (h in K.PARTNER) and ((len(sub) + len(h)) % 2 == 0) and (h, True) in plain
                                 cfgs.append(plain[(h, hp)])
                             for order in ((0, 1) if r <= 1 else ((r + len(cg.key)) % 2,)):
-                                for split in ((('one', 'each', 'onec') if order == 0 else ('one', 'each')) if r <= 1 else (('one', 'each', 'onec', 'eachc')[(r + order + len(sub[0])) % 4],)):
+                                for split in ((('one', 'each', 'onec', 'eachf') if order == 0 else ('one', 'each', 'eachf')) if r <= 1 else (('one', 'each', 'onec', 'eachc', 'eachf')[(r + order + len(sub[0])) % 5],)):
                                     yield (shape, g, partner, cg, cfgs, order, split)
                     # other traits with parameters of their own on the same fields: k <= 2 (thorough 3)
                     kmax = 2 if tier == 'quick' else 3
